@@ -1,6 +1,8 @@
 package props
 
 import (
+	"github.com/Factom-Asset-Tokens/factom"
+	"github.com/pegnet/pegnet/modules/grader"
 	"os"
 	"encoding/hex"
 	"encoding/json"
@@ -17,7 +19,7 @@ import (
 )
 
 // Sequence explorer: EVERY sequence of block events up to a depth, from a funded state, in
-// several eras, on the real daemon; after EVERY block the balances of the three actors and the
+// several eras, on the real daemon; after EVERY block the balances of the three actors and the miner and the
 // status of every submitted entry are compared with a boring reference ledger (maps) that is
 // written from the property statements (C03 no overdraft / all-or-nothing, C04 conservation,
 // C06 at-most-once, C07 next graded block's rates, C13 admission by height, C17 status).
@@ -415,7 +417,7 @@ func seqPlanFor(thorough bool, prop string) []seqEra {
 	plan := []seqEra{st(drive.StPIP10, 4), st(drive.StV202, 3), st(drive.StV4, 3), st(drive.StV20, 3), st(drive.StOneWayFCT, 3), st(drive.StBank, 3), st(drive.StPegPrice, 3),
 		bd(drive.StV4, 3), bd(drive.StV20Dev, 3), bd(drive.StV204Burn, 3), bd(drive.StPegPrice, 3), bd(drive.StOneWayFCT, 3), bd(drive.StBank, 3),
 		sn(drive.StPIP10, 3), sn(drive.StV202, 3), sn(drive.StV20Dev, 3)}
-	deep := map[string]int{"C03": 2, "C04": 1, "C06": 13, "C07": 9, "C13": 7, "C17": 14}
+	deep := map[string]int{"C03": 2, "C04": 1, "C06": 13, "C07": 9, "C11": 5, "C13": 7, "C17": 14}
 	if i, ok := deep[prop]; ok {
 		plan[i].depth = 4
 	} else {
@@ -426,9 +428,9 @@ func seqPlanFor(thorough bool, prop string) []seqEra {
 	return plan
 }
 
-var seqProps = []string{"C03", "C04", "C06", "C07", "C13", "C17"}
+var seqProps = []string{"C03", "C04", "C06", "C07", "C11", "C13", "C17"}
 
-const seqRule = " PLUS the sequence family: every sequence of block events (alphabet of 18: ungraded / graded at two rate vectors, transfers A>B and B>A, conversions submitted in graded and ungraded blocks, a two-entry block, byte-identical copies of the previous entry, a PEG request, a chained batch, conversions into pFCT and into a small asset, a conversion whose output the same batch spends, a block with too few price records, an FCT burn with a pFCT conversion) up to the stated depth from a funded state in several eras; after EVERY block the balances of the three actors and the status of every submitted entry are compared with a reference ledger kept in maps; this property reports the discrepancies of its class"
+const seqRule = " PLUS the sequence family: every sequence of block events (alphabet of 18: ungraded / graded at two rate vectors, transfers A>B and B>A, conversions submitted in graded and ungraded blocks, a two-entry block, byte-identical copies of the previous entry, a PEG request, a chained batch, conversions into pFCT and into a small asset, a conversion whose output the same batch spends, a block with too few price records, an FCT burn with a pFCT conversion) up to the stated depth from a funded state in several eras; after EVERY block the balances of the three actors and the miner and the status of every submitted entry are compared with a reference ledger kept in maps; this property reports the discrepancies of its class"
 
 // files of a package are initialised in file-name order, so the drivers are registered by now
 func init() {
@@ -651,6 +653,7 @@ func (x *seqX) step(n *seqNode, ei int, report bool) (*seqNode, bool) {
 	if ev.burn != 0 {
 		spec.Factoid = []fake.FTx{kit.Burn(KA, ev.burn, BurnRCD(), int64(h))}
 	}
+	prevWinners := append([]string{}, b.Prev...)
 	b.Add(spec)
 	d, err := drive.Open(nn.dir+"/db", fake.NewNode(b.Chain), nil, false)
 	if err != nil {
@@ -686,10 +689,24 @@ func (x *seqX) step(n *seqNode, ei int, report bool) (*seqNode, bool) {
 		// burns are credited after the block's transactions
 		m.add(hx(AddrA), "pFCT", ev.burn)
 	}
+	if blk := b.Chain.Block(h); len(blk.OPR) > 0 {
+		// mining rewards: the grader library's verdict on the block's records, paid to the address each winner names
+		if g, err := grader.NewGrader(era.OPRVersion(h), int32(h), prevWinners); err == nil {
+			for _, e := range blk.OPR {
+				eh := fake.EntryHash(drive.IDs.OPR, e)
+				g.AddOPR(eh[:], e.ExtIDs, e.Content)
+			}
+			for _, wn := range g.Grade().Winners() {
+				if a, err := factom.NewFAAddress(wn.OPR.GetAddress()); err == nil {
+					m.add(hx(a), "PEG", uint64(wn.Payout()))
+				}
+			}
+		}
+	}
 	if report {
 		r.Transitions++
 	}
-	actors := []string{hx(AddrA), hx(AddrB), hx(AddrC)}
+	actors := []string{hx(AddrA), hx(AddrB), hx(AddrC), hx(kit.Addr(KM))}
 	if h >= era.V20 && h%144 == 0 {
 		// holder and developer payouts: C14 / C15 own the PEG issued at a snapshot height
 		for _, a := range actors {
@@ -748,6 +765,9 @@ func (x *seqX) step(n *seqNode, ei int, report bool) (*seqNode, bool) {
 		for k := range assets {
 			if v.Balances[a][k] != m.bal[a][k] {
 				balDiff = append(balDiff, fmt.Sprintf("%s… %s: ledger %d, reference %d", a[:8], k, v.Balances[a][k], m.bal[a][k]))
+				if a == hx(kit.Addr(KM)) || (ev.burn != 0 && k == "pFCT") {
+					tags["C11"] = true
+				}
 			}
 		}
 	}
